@@ -323,27 +323,72 @@ def r5_batch_labels(ctx):
     else:
         ctx.finding(f, None, 'batch labels are not collected from '
                     'evolution.label', key='no-batch-labels')
-    cons = [c for c in walk_no_nested(f.node)
+    from ..util import unit_walk, param_argument
+
+    def trace(expr, fn):
+        """Follow a helper parameter back to the argument at the call site
+        in _build_batches."""
+        if fn is not f and isinstance(expr, ast.Name) and \
+                expr.id in fn.params:
+            args = param_argument(ctx, f, fn, expr.id)
+            if args:
+                return args[0]
+        if fn is not f and isinstance(expr, ast.Attribute) and \
+                isinstance(expr.value, ast.Name) and \
+                expr.value.id in fn.params:
+            args = param_argument(ctx, f, fn, expr.value.id)
+            if args:
+                return ast.Attribute(value=args[0], attr=expr.attr,
+                                     ctx=ast.Load())
+        return expr
+
+    # the (task, info) pairs of a batch
+    pairs = set()
+    for l in walk_no_nested(f.node):
+        if isinstance(l, ast.For) and isinstance(l.target, ast.Tuple) and \
+                len(l.target.elts) == 2 and all(
+                    isinstance(e, ast.Name) for e in l.target.elts) and \
+                'task_evolutions' in unparse(l.iter):
+            pairs.add((l.target.elts[0].id, l.target.elts[1].id))
+    cons = [(g, c) for g, c in unit_walk(ctx, f)
             if isinstance(c, ast.Call) and
             call_name(c) == 'get_app_pending_mutations']
     ctx.floor('get_app_pending_mutations calls in _build_batches', len(cons),
               1)
-    for c in cons:
+    for g, c in cons:
         lab = kwarg(c, 'evolution_labels')
         app = kwarg(c, 'app')
-        if lab is not None and unparse(lab) == \
-                "batch_task_info['evolutions']" and app is not None and \
-                unparse(app) == 'batch_task.app':
-            ctx.ok(f, 'pending mutations are selected by exactly the batch\'s '
+        lab_t = trace(lab, g) if lab is not None else None
+        app_t = trace(app, g) if app is not None else None
+        ok = False
+        if isinstance(lab_t, ast.Subscript) and \
+                subscript_const(lab_t) == 'evolutions' and \
+                isinstance(lab_t.value, ast.Name) and \
+                isinstance(app_t, ast.Attribute) and app_t.attr == 'app' and \
+                isinstance(app_t.value, ast.Name) and \
+                (app_t.value.id, lab_t.value.id) in pairs:
+            ok = True
+        if ok:
+            ctx.ok(g, 'pending mutations are selected by exactly the batch\'s '
                    'labels for that task', c)
         else:
-            ctx.finding(f, c, 'the batch executes mutations selected by %s '
+            ctx.finding(g, c, 'the batch executes mutations selected by %s '
                         'for %s, not by its own labels' % (
-                            unparse(lab) if lab is not None else '?',
-                            unparse(app) if app is not None else '?'))
-    # custom evolutions path: mutations_map[_label] for _label in labels
-    if "mutations_map[_label]" in unparse(f.node) and \
-            "for _label in batch_task_info['evolutions']" in unparse(f.node):
+                            unparse(lab_t) if lab_t is not None else '?',
+                            unparse(app_t) if app_t is not None else '?'))
+    # custom evolutions path: mutations_map[<label>] for <label> in <labels>
+    custom = False
+    for g, n in unit_walk(ctx, f):
+        if isinstance(n, (ast.GeneratorExp, ast.ListComp)) and \
+                isinstance(n.elt, ast.Subscript) and \
+                isinstance(n.elt.slice, ast.Name) and \
+                isinstance(n.generators[0].target, ast.Name) and \
+                n.elt.slice.id == n.generators[0].target.id:
+            it = trace(n.generators[0].iter, g)
+            if isinstance(it, ast.Subscript) and \
+                    subscript_const(it) == 'evolutions':
+                custom = True
+    if custom:
         ctx.ok(f, 'custom evolutions are selected by the batch\'s labels too')
     else:
         ctx.finding(f, None, 'custom evolutions in a batch are not selected '
